@@ -378,7 +378,122 @@ def reader_buffers(repo, rep):
         rep.ok("R-C13-14", f"{fi.file}:{fi.node.lineno} interp_spec", "return value", "fresh array on every path (alias analysis of the return value)")
 
 
+def progression(expr, env):
+    """(start, step, count) as rational functions of an expression that builds an arithmetic progression, or None:
+    np.arange(a, b, s) / np.arange(n) * s + a / np.linspace(a, b, n[, endpoint=..]) - optionally wrapped in list() / np.array()."""
+    from ..ratfun import rat_of, Rat
+    from ..cast import Poly
+    e = expr
+    while isinstance(e, ast.Call) and call_name(e).split(".")[-1] in ("list", "array", "asarray", "tuple") and len(e.args) == 1:
+        e = e.args[0]
+    one = Rat(Poly.const(1))
+    if isinstance(e, ast.Call) and call_name(e).split(".")[-1] == "arange":
+        a = [rat_of(x, env) for x in e.args]
+        if len(a) == 3:
+            return a[0], a[2], (a[1] - a[0]) / a[2]
+        if len(a) == 2:
+            return a[0], one, a[1] - a[0]
+        if len(a) == 1:
+            return Rat(Poly.const(0)), one, a[0]
+    if isinstance(e, ast.Call) and call_name(e).split(".")[-1] == "linspace" and len(e.args) >= 3:
+        a, b, n = (rat_of(x, env) for x in e.args[:3])
+        ep = kwarg(e, "endpoint")
+        endpoint = True if ep is None else (ep.value if isinstance(ep, ast.Constant) else None)
+        if len(e.args) >= 4 and isinstance(e.args[3], ast.Constant):
+            endpoint = e.args[3].value
+        if endpoint is None:
+            return None
+        return a, (b - a) / ((n - one) if endpoint else n), n
+    if isinstance(e, ast.BinOp) and isinstance(e.op, (ast.Add, ast.Mult)):
+        for x, y in ((e.left, e.right), (e.right, e.left)):
+            p = progression(x, env)
+            if p is not None:
+                try:
+                    c = rat_of(y, env)
+                except Exception:
+                    return None
+                return (p[0] + c, p[1], p[2]) if isinstance(e.op, ast.Add) else (p[0] * c, p[1] * c, p[2])
+    return None
+
+
+def frequency_axes(repo, rep):
+    """R-C13-15: the TRIAXYS frequency axis is the header's arithmetic progression f0 + k df, k = 0 .. nf-1 (decided as a rational-function identity).
+    R-C13-16: a reader converts an epoch time stamp with an explicit time zone, never through the process's local time.
+    R-C13-17: a reader of per-record positions keeps them per record."""
+    from ..ratfun import rat_of, Rat, NotRational
+    from ..cast import Poly
+    rep.rule("R-C13-15", "Triaxys.freqs is f0 + k*df for k < nf of the header (start, step and count compared as rational functions of the header values)")
+    cls = repo.cls("wavespectra.input.triaxys.Triaxys")
+    fi = cls.methods["freqs"]
+    env = {}
+    for a in ast.walk(fi.node):
+        if isinstance(a, ast.Assign) and len(a.targets) == 1:
+            t, v = a.targets[0], a.value
+            if isinstance(t, ast.Name):
+                env[t.id] = v
+            elif isinstance(t, (ast.Tuple, ast.List)) and isinstance(v, (ast.Tuple, ast.List)) and len(t.elts) == len(v.elts):
+                for x, y in zip(t.elts, v.elts):
+                    if isinstance(x, ast.Name):
+                        env[x.id] = y
+    def hv(k):
+        return Rat(Poly.var(f"self.header['{k}']"))
+    rets = [r for r in ast.walk(fi.node) if isinstance(r, ast.Return) and r.value is not None]
+    if not rets:
+        raise AnalysisError("Triaxys.freqs: no returned value")
+    for r in rets:
+        try:
+            pr = progression(r.value, env)
+        except NotRational:
+            pr = None
+        if pr is None:
+            raise AnalysisError("Triaxys.freqs: the returned axis is not built by a recognised progression idiom (arange / linspace / arange*step+start)")
+        st, sp, cn = pr
+        bad = []
+        if not st.equals(hv("f0")):
+            bad.append("start is not the header's INITIAL FREQUENCY")
+        if not sp.equals(hv("df")):
+            bad.append("step is not the header's FREQUENCY SPACING")
+        if not cn.equals(hv("nf")):
+            bad.append("count is not the header's NUMBER OF FREQUENCIES")
+        if bad:
+            rep.fail("R-C13-15", fi.file, r.lineno, fi.qualname, unparse(r.value)[:100],
+                     "; ".join(bad) + ": the frequencies attached to the spectrum are not the ones the file states (identical only when f0 = 0)", anchor="triaxys:freq-progression")
+        else:
+            rep.ok("R-C13-15", f"{fi.file}:{r.lineno} Triaxys.freqs", unparse(r.value)[:80], "start f0, step df, nf values")
+    rep.rule("R-C13-16", "epoch time stamps are converted with an explicit time zone (or a utc conversion), never through the local time of the process")
+    n16 = 0
+    for m in repo.modules.values():
+        if not m.name.startswith("wavespectra.input"):
+            continue
+        for fi2 in m.all_funcs():
+            for c in ast.walk(fi2.node):
+                if isinstance(c, ast.Call) and isinstance(c.func, ast.Attribute) and c.func.attr in ("fromtimestamp", "localtime", "mktime", "utcfromtimestamp"):
+                    n16 += 1
+                    tz = kwarg(c, "tz") is not None or len(c.args) >= 2
+                    if c.func.attr == "utcfromtimestamp" or (c.func.attr == "fromtimestamp" and tz and not (isinstance(kwarg(c, "tz"), ast.Constant) and kwarg(c, "tz").value is None)):
+                        rep.ok("R-C13-16", f"{fi2.file}:{c.lineno} {fi2.short}", unparse(c)[:70], "explicit time zone")
+                    else:
+                        rep.fail("R-C13-16", fi2.file, c.lineno, fi2.qualname, unparse(c)[:90],
+                                 "the file's epoch time is converted through the local time zone of the machine that reads it: the record times differ from "
+                                 "what the file says by the UTC offset of the reader", anchor=f"local-time:{fi2.short}")
+    rep.floor("R-C13-16", "epoch conversions in the readers", n16, 1)
+    rep.rule("R-C13-17", "readers whose files carry one position per record (Spotter) keep lon / lat per record: no time slice of them is stored back")
+    sp_ = repo.module("wavespectra.input.spotter")
+    n17 = 0
+    for fi3 in sp_.all_funcs():
+        for c in ast.walk(fi3.node):
+            if isinstance(c, ast.Call) and isinstance(c.func, ast.Attribute) and c.func.attr in ("isel", "sel", "squeeze", "mean", "first", "median") \
+                    and any(x in unparse(c.func.value) for x in ("lon", "lat", "LONNAME", "LATNAME")) \
+                    and (any(k.arg == "time" for k in c.keywords) or any(repo.const(sp_, a_) == "time" for a_ in c.args)):
+                rep.fail("R-C13-17", fi3.file, c.lineno, fi3.qualname, unparse(c)[:90],
+                         "every Spotter record carries its own GPS fix: reducing lon / lat over time attaches one position to all records (a drifting "
+                         "buoy's track is lost)", anchor=f"spotter-position:{fi3.short}")
+                n17 += 1
+    rep.ok("R-C13-17", "wavespectra/input/spotter.py", f"{len(list(sp_.all_funcs()))} functions", "no reduction of lon / lat over time") if not n17 else None
+
+
 def run(repo, rep, tier):
+    frequency_axes(repo, rep)
     rep.rule("R-C13-10", "every parameter of the functions behind this property is read (file readers): none is accepted and then ignored, and no control parameter (cutoff, limit, tolerance, window, count, switch) is replaced by another value before use (coercion and default filling aside)")
     from .shared import unused_parameters
     unused_parameters(repo, rep, "R-C13-10", ("wavespectra.input", "wavespectra.core.swan"), "file readers")
